@@ -9,6 +9,7 @@ V: YieldTrace — TLC runs the product machine (structured small-step semantics 
    AllTargetsExist, Linearized.
 """
 import concurrent.futures
+import threading
 import copy
 import hashlib
 import json
@@ -23,6 +24,7 @@ from harness import core
 
 JVM = ("-Xmx4g", "-XX:ParallelGCThreads=4")
 CHUNK = 3000
+BOOK = threading.Lock()
 INVARIANTS = ["Linearized", "SameEvents", "NoSilentCycle", "LabelsAreConsecutive", "AllTargetsExist"]
 
 
@@ -147,6 +149,14 @@ def run_product(ck: core.Check, obs: List[Dict[str, Any]], what: str, tag: str, 
 
     with concurrent.futures.ThreadPoolExecutor(max_workers=parallel) as ex:
         results = list(ex.map(one, chunks))
+    BOOK.acquire()
+    try:
+        return _book(ck, results, what, found, counters)
+    finally:
+        BOOK.release()
+
+
+def _book(ck: core.Check, results: Any, what: str, found: List[Tuple[int, str, str]], counters: Dict[str, int]) -> Tuple[List[Tuple[int, str, str]], Dict[str, int]]:
     for off, res in results:
         ck.cov["states"] += res.distinct
         ck.cov["transitions"] += res.generated
@@ -198,25 +208,26 @@ def core_none() -> int:
 
 
 def main() -> int:
+    replay = os.environ.get("VERIF_REPLAY")
+    # (core.Check wipes replays/<id>: read the replay file first)
+    replay_doc = core.read_json(pathlib.Path(replay)) if replay else None
     ck = core.Check("C26", "model_checking")
     rnd = random.Random(ck.seed)
     suffix = "" if ck.quick else "_thorough"
-    replay = os.environ.get("VERIF_REPLAY")
 
     # ---- M: the algorithm as designed, against the structured semantics ----------------------
     if not replay:
         algo_p, _ = cached_generation(ck, "YieldAlgoGen", "YieldAlgoGen%s.cfg" % suffix, ["Yield.tla", "YieldAlgo.tla", "YieldAlgoGen.tla"], "M: transcribed algorithm evaluated on every small flow, all passes", "algo.json")
         algo = core.read_json(algo_p)
-        m_found, m_cnt = run_product(ck, algo, "M: every pass of the transcribed algorithm simulates the structured flow", "m", parallel=2, workers=4)
-        if m_found:
-            idx, inv, state = m_found[0]
-            raise core.MachineryFailure("design-level model check violated %s on pass %s of flow %s" % (inv, algo[idx]["pass"], shape_sig(algo[idx]["flow"])))
+        # the design-level run proceeds in the background while G / R / V go on; it is joined before the verdict
+        m_pool = concurrent.futures.ThreadPoolExecutor(max_workers=1)
+        m_future = m_pool.submit(run_product, ck, algo, "M: every pass of the transcribed algorithm simulates the structured flow", "m", 2, 4)
         ck.cov["design_cases"] = len(algo)
 
     # ---- G ------------------------------------------------------------------------------------
     n_enum = n_sampled_out = n_sim = 0
     if replay:
-        rp = core.read_json(pathlib.Path(replay))
+        rp = replay_doc
         flows = [{"flow": rp["case"]["flow"], "size": 0}]
     else:
         flows_p, _ = cached_generation(ck, "YieldGen", "YieldGen.cfg", ["Yield.tla", "YieldGen.tla"], "G: all flows of size <= 4", "flows.json")
@@ -226,7 +237,7 @@ def main() -> int:
             small = [f for f in allflows if f["size"] <= 3]
             big = sorted((f for f in allflows if f["size"] > 3), key=lambda f: json.dumps(f, sort_keys=True))
             rnd.shuffle(big)
-            keep = 1500
+            keep = 1000
             n_sampled_out = max(0, len(big) - keep)
             flows = small + big[:keep]
         else:
@@ -238,7 +249,7 @@ def main() -> int:
                 encs.add(tuple(int(x) for x in m.group(1).replace("\n", " ").split(",") if x.strip()))
             sim = [{"flow": decode_shape(list(e)), "size": 0} for e in sorted(encs)]
             rnd.shuffle(sim)
-            sim = sim[:6000]
+            sim = sim[:4000]
             n_sim = len(sim)
             if n_sim == 0:
                 raise core.MachineryFailure("the simulation produced no flows:\n%s" % res.stdout[-1500:])
@@ -286,6 +297,11 @@ def main() -> int:
 
     if not replay:
         negative_control(ck, obs)
+        m_found, m_cnt = m_future.result()
+        m_pool.shutdown()
+        if m_found:
+            idx, inv, state = m_found[0]
+            raise core.MachineryFailure("design-level model check violated %s on pass %s of flow %s" % (inv, algo[idx]["pass"], shape_sig(algo[idx]["flow"])))
 
     ck.cov["evaluations"] = len(obs)
     ck.cov["traces_validated_against_impl"] = len(obs)
